@@ -206,7 +206,10 @@ impl ScriptedDriver for World {
       }
       else if deadline_first {
         self.timeouts_seen += 1;
-        let stall = match self.stall { Some((n, ns)) if n == self.timeouts_seen => ns, _ => 0 };
+        // (read through a fully initialised pair: with `match self.stall { Some((n, ns)) if n == .. }` the optimiser loads
+        // n before it tests the tag, which memcheck reports as a jump on an uninitialised value when the field is None)
+        let (sn, sns) = self.stall.unwrap_or((usize::MAX, 0));
+        let stall = if sn == self.timeouts_seen { sns } else { 0 };
         self.wait_until(t + timeout_ns.unwrap() + self.lateness_ns + stall);
         result = PollRes::TimedOut;
       }
